@@ -210,7 +210,7 @@ class NeuOptPolicy(ImprovementPolicy):
             logprob, action_sampled = decode_strategy.step(
                 logits,
                 ~mask.clone(),
-                action=actions[:, i : i + 1].squeeze() if actions is not None else None,
+                action=actions[:, i : i + 1].squeeze(-1) if actions is not None else None,
             )
             action_sampled = action_sampled.unsqueeze(-1)
             if i > 0:
@@ -230,10 +230,10 @@ class NeuOptPolicy(ImprovementPolicy):
 
             # Store and Process actions
             next_of_new_action = rec.gather(1, action_sampled)
-            action_index[:, i] = action_sampled.squeeze().clone()
-            k_action_left[stopped, i] = action_sampled[stopped].squeeze().clone()
-            k_action_right[~stopped, i - 1] = action_sampled[~stopped].squeeze().clone()
-            k_action_left[:, i + 1] = next_of_new_action.squeeze().clone()
+            action_index[:, i] = action_sampled.squeeze(-1).clone()
+            k_action_left[stopped, i] = action_sampled[stopped].squeeze(-1).clone()
+            k_action_right[~stopped, i - 1] = action_sampled[~stopped].squeeze(-1).clone()
+            k_action_left[:, i + 1] = next_of_new_action.squeeze(-1).clone()
 
             # Prepare next RNN input
             input_q1 = nfe.gather(
@@ -253,9 +253,9 @@ class NeuOptPolicy(ImprovementPolicy):
             # Process if k-opt close
             # assert (input_q1[stopped] == input_q2[stopped]).all()
             if i > 0:
-                stopped = stopped | (action_sampled == next_of_last_action).squeeze()
+                stopped = stopped | (action_sampled == next_of_last_action).squeeze(-1)
             else:
-                stopped = (action_sampled == next_of_last_action).squeeze()
+                stopped = (action_sampled == next_of_last_action).squeeze(-1)
             # assert (input_q1[stopped] == input_q2[stopped]).all()
 
             k_action_left[stopped, i] = k_action_left[stopped, i - 1]
@@ -270,12 +270,12 @@ class NeuOptPolicy(ImprovementPolicy):
             mask[(visited_time_tag <= visited_time_tag.gather(1, action_sampled))] = True
             if i == 0:
                 mask[visited_time_tag > (gs - 2)] = True
-            mask[stopped, action_sampled[stopped].squeeze()] = (
+            mask[stopped, action_sampled[stopped].squeeze(-1)] = (
                 False  # allow next k-opt starts immediately
             )
             # if True:#i == env.k_max - 2: # allow special case: close k-opt at the first selected node
             index_allow_first_node = (~stopped) & (
-                next_of_new_action.squeeze() == action_index[:, 0]
+                next_of_new_action.squeeze(-1) == action_index[:, 0]
             )
             mask[index_allow_first_node, action_index[index_allow_first_node, 0]] = False
 
